@@ -83,6 +83,17 @@ class SymSeq:
         if isinstance(idx, (int, SR)):
             cur().safety("index", z3.And(z3num(idx) >= 0, z3num(idx) < z3num(self.n)))
             return self.at(idx if isinstance(idx, SR) else SR(z3.IntVal(idx)))
+        if isinstance(idx, slice) and idx.step in (None, 1) and all(b is None or (isinstance(b, int) and b >= 0) or isinstance(b, SR) for b in (idx.start, idx.stop)):
+            # seq[a:b] with non-negative bounds: elements a .. min(b, n) - 1
+            n = z3num(self.n)
+            lo = z3num(idx.start) if idx.start is not None else z3.IntVal(0)
+            hi = n if idx.stop is None else z3.If(z3num(idx.stop) < n, z3num(idx.stop), n)
+            if isinstance(idx.start, SR):
+                cur().safety("slice-start-non-negative", lo >= 0)
+            if isinstance(idx.stop, SR):
+                cur().safety("slice-stop-non-negative", z3num(idx.stop) >= 0)
+            at0 = self.at
+            return SymSeq(SR(z3.simplify(z3.If(hi > lo, hi - lo, 0))), lambda k: at0(SR(z3.simplify(z3num(k) + lo))), self.name + "[slice]")
         raise Unsupported("index %r of symbolic sequence" % (idx,))
 
     def _truth(self):
